@@ -199,6 +199,23 @@ def _ser_scale_episodes(g):
         for e in ("base64", "readfrom", "unmarshal"):
             g.emit("rd %s %s %s" % (g.fresh(), e, x))
         g.count("ser:64KiB-length-mod-3")
+    # a working copy (copy-on-write clone, possibly edited) REFRESHED from the serialized original through every copying entry point:
+    # the receiver ends up equal to the original and the original (which shared containers with it) is what it was
+    for kinds in ("BBBB", "ARBA", "RRRR"):
+        conts = {"B": "B:32768:5555555555555555*1024", "A": "A:1,5,9,300", "R": "R:10+90,1000+5"}
+        for entry in ("readfrom", "unmarshal", "base64", "readpipe", "frombuffer"):
+            o, wk = g.fresh("wc"), g.fresh("wc")
+            g.emit("mkrepr %s cow=1;%s" % (o, ";".join("%d:%s" % (3 + 2 * i, conts[k]) for i, k in enumerate(kinds))))
+            g.emit("clone %s %s" % (wk, o))
+            g.emit("remr %s %d %d" % (wk, 3 * 65536, 4 * 65536))        # the working copy loses its first chunk
+            g.emit("add %s %d" % (wk, 7 * 65536 + 77))
+            g.emit("rd %s %s %s reuse" % (wk, entry, o))
+            g.emit("dig %s" % o)
+            g.emit("eq %s %s" % (wk, o))
+            g.emit("add %s %d" % (wk, 5 * 65536 + 2)); g.emit("rem %s %d" % (wk, 9 * 65536 + 10))
+            g.emit("dig %s" % o)
+            g.emit("wf %s" % o)
+        g.count("ser:refresh-cow-working-copy")
     # run chunks around the largest run count the library keeps as runs (2+4*runs < 8224: up to 2055 runs), alone and beside other
     # chunks, through every entry point and into a used receiver
     for n in (2040, 2047, 2048, 2049, 2050, 2053, 2055, 2056):
